@@ -37,6 +37,7 @@ import (
 	"path"
 	"strconv"
 	"strings"
+	"unicode/utf8"
 
 	"github.com/go-shiori/dom"
 	"github.com/markusmobius/go-domdistiller/data"
@@ -196,7 +197,7 @@ func (pnf *PrevNextFinder) FindOutlink(root *html.Node, pageURL *nurl.URL, findN
 		linkText = strings.TrimSpace(linkText)
 
 		// If the linkText looks like it's not the next or previous page, skip it.
-		if len(linkText) > 25 {
+		if utf8.RuneCountInString(linkText) > 25 {
 			pnf.appendDebugStrForLink(link, "ignored: link text too long")
 			continue
 		}
@@ -346,8 +347,10 @@ func (pnf *PrevNextFinder) FindOutlink(root *html.Node, pageURL *nurl.URL, findN
 		}
 
 		// If the link text is too long, penalize the link.
-		if len(linkText) > 10 {
-			linkObj.score -= len(linkText)
+		// The length is the number of characters, not of bytes: "« Previous"
+		// is as long as "< Previous".
+		if lenText := utf8.RuneCountInString(linkText); lenText > 10 {
+			linkObj.score -= lenText
 			pnf.appendDebugStrForLink(link, fmt.Sprintf(
 				"score %d, text too long", linkObj.score))
 		}
